@@ -2,3 +2,5 @@
 import AM.Model.Snapshot
 import AM.Model.CrashFS
 import AM.Props.C11
+import AM.Model.Config
+import AM.Props.C17
